@@ -300,6 +300,35 @@ let do_mvt (op : string) (a : string list) : string =
        | Some ls -> dump_mtile true ls | None -> "err")
   | _ -> "?mvt-args"
 
+(* ---------- C12 crash states ---------- *)
+let wops_of (s : string) : wop list =
+  List.map (fun t ->
+    let n = String.length t in
+    match t.[0] with
+    | 'A' -> let i = String.index t ':' in WAppend (n_of_string (String.sub t 1 (i - 1)), bytes_of_hex (String.sub t (i + 1) (n - i - 1)))
+    | 'W' -> WStart (bytes_of_hex (String.sub t 2 (n - 2)))
+    | 'S' -> WSetPos (n_of_string (String.sub t 1 (n - 1)))
+    | _ -> failwith "wop") (List.filter (fun x -> x <> "") (split_on ',' s))
+let rec nat_of_int (i : int) : nat = if i <= 0 then O else S (nat_of_int (i - 1))
+let do_c12 (op : string) (args : string list) : string =
+  match op, args with
+  | "c12.vt", [o] -> if vt_wfb (wops_of o) then "wf" else "not-wf"
+  | "c12.pm", [o] ->
+      let ops = wops_of o in
+      if not (pm_wfb ops) then "not-wf" else begin
+        let n = List.length ops in
+        let opened = ref [] in
+        let test k c = match pm_view (crash_state ops (nat_of_int k) (nat_of_int c)) with Some _ -> opened := Printf.sprintf "%d:%d" k c :: !opened | None -> () in
+        for k = 0 to n do test k 0 done;
+        for c = 1 to 127 do test (n - 1) c done;
+        "wf " ^ String.concat "," (List.rev !opened)
+      end
+  | "c12.vthdr", [h] -> (match vt_parse_header (bytes_of_hex h) with
+      | Some v -> Printf.sprintf "ok %s %s %s %s" (string_of_n v.vh_moff) (string_of_n v.vh_mlen) (string_of_n v.vh_boff) (string_of_n v.vh_blen)
+      | None -> "err")
+  | "c12.pmhdr", [h] -> (match pm_view (bytes_of_hex h) with Some (v, _) -> "ok " ^ hex_of_bytes v | None -> "err")
+  | _ -> "?c12-args"
+
 (* ---------- dispatch ---------- *)
 let dispatch (op : string) (args : string list) : string =
   match op with
@@ -309,6 +338,7 @@ let dispatch (op : string) (args : string list) : string =
   | "recomp" | "optc" -> do_recomp op args
   | "tilepath" | "static" -> do_http op args
   | "vpl" -> do_vpl args
+  | "c12.vt" | "c12.pm" | "c12.vthdr" | "c12.pmhdr" -> do_c12 op args
   | "varint" | "svarint" | "mvt.dec" | "mvt.rt" | "mvt.merge" -> do_mvt op args
   | _ when String.length op > 5 && String.sub op 0 5 = "json." -> do_json op args
   | "sysprog" -> (match args with
